@@ -101,7 +101,7 @@ package util
 
 // the fuzzy echo test: every input byte is found in the output, in order. One step: the first occurrence of a byte is
 // found and the search goes on behind it.
-//@ func bytesRoughlyContainsIterOutputForInputChar [C01]
+//@ func bytesRoughlyContainsIterOutputForInputChar [C01 C12]
 //@   pure
 //@   ensures #found-means-first-occurrence-and-the-rest-behind-it result.0 ==> (exists k int :: 0 <= k && k < len(output) && output[k] == inputChar && (forall j int :: 0 <= j && j < k ==> output[j] != inputChar) && result.1 === output[k+1:len(output)])
 //@   ensures #not-found-means-absent !result.0 ==> (forall j int :: 0 <= j && j < len(output) ==> output[j] != inputChar) && result.1 == output
